@@ -212,6 +212,49 @@ PathHolds(cfg, s) ==
                 \/ x.cut /\ ~x.nostart /\ (s.call.ctxdone \/ s.cidx # 0) /\ v = SubSeq(x.visits, 1, Len(x.visits) - 1)
 
 (* ---------------------------------------------------------------------- *)
+(* Flows that have a retry budget of their own: a flow is a node, so a pass *)
+(* over its nodes that fails is repeated from the start node until a pass   *)
+(* succeeds or the budget is used up.  RWalk interprets the recorded        *)
+(* sequence of visits (each complete with an action, or failed) that way;   *)
+(* it must consume exactly the recorded visits and end like the run ended.  *)
+(* ---------------------------------------------------------------------- *)
+BlockStat(cfg, s) ==
+  LET B == s.blocks
+  IN TLCEval([i \in 1..Len(B) |->
+        LET ok == B[i].posts # <<>> /\ B[i].posts[1].out = "ok"
+        IN [node |-> B[i].node, ok |-> ok, act |-> IF ok THEN Norm(B[i].posts[1].act) ELSE NIL]])
+
+RECURSIVE RWalk(_, _, _, _)
+RECURSIVE RTry(_, _, _, _, _)
+RECURSIVE RBody(_, _, _, _, _, _)
+RWalk(cfg, conns, n, bs) ==
+  IF NodeOf(cfg, n).kind # "flow"
+  THEN IF bs = <<>> THEN [st |-> "cut", rest |-> <<>>, act |-> NIL]
+       ELSE IF Head(bs).node # n THEN [st |-> "bad", rest |-> bs, act |-> NIL]
+       ELSE IF Head(bs).ok THEN [st |-> "ok", rest |-> Tail(bs), act |-> Head(bs).act]
+       ELSE [st |-> "fail", rest |-> Tail(bs), act |-> NIL]
+  ELSE RTry(cfg, conns, n, bs, 1)
+\* attempt k of flow f
+RTry(cfg, conns, f, bs, k) ==
+  LET r == IF NodeOf(cfg, f).start = NIL THEN [st |-> "fail", rest |-> bs, act |-> NIL]      \* "no start node configured"
+           ELSE RBody(cfg, conns, f, NodeOf(cfg, f).start, bs, NIL)
+  IN IF r.st = "fail" /\ k < BudgetOf(cfg, f) THEN RTry(cfg, conns, f, r.rest, k + 1) ELSE r
+\* one pass: flow f standing at node cur, last action `last`
+RBody(cfg, conns, f, cur, bs, last) ==
+  IF cur = NIL THEN [st |-> "ok", rest |-> bs, act |-> Norm(last)]
+  ELSE LET r == RWalk(cfg, conns, cur, bs)
+       IN IF r.st # "ok" THEN r
+          ELSE IF HasEntry(conns, f, cur, r.act, 1000000)
+               THEN RBody(cfg, conns, f, Target(conns, f, cur, r.act, 1000000), r.rest, r.act)
+               ELSE [st |-> "ok", rest |-> r.rest, act |-> r.act]
+
+RetriedPathHolds(cfg, s) ==
+  \E r \in {RWalk(cfg, s.conns, s.call.node, BlockStat(cfg, s))} :
+     /\ HasRet(s) /\ r.rest = <<>>
+     /\ \/ r.st = "ok" /\ ~RetOf(s).iserr /\ RetOf(s).act = r.act
+        \/ r.st = "fail" /\ RetOf(s).iserr
+
+(* ---------------------------------------------------------------------- *)
 (* the equivalent FLATTENED state machine of a hierarchy of flows (C10):    *)
 (* a state is (stack of enclosing flows, leaf); one step = the leaf returns *)
 (* an action, flows that end present their last action one level up.       *)
@@ -346,7 +389,11 @@ C02_Clauses(cfg, S) ==
                         b.fbs # <<>> =>
                           /\ (b.fbs[1].out = "ok" /\ b.posts # <<>> => b.posts[1].exec = b.fbs[1].val)
                           /\ (b.fbs[1].out = "err" => b.posts = <<>> /\ (Final(s, i) => HasRet(s) /\ RetOf(s).iserr
-                                                      /\ b.fbs[1].err \in Range(RetOf(s).errs)))),
+                                                      /\ b.fbs[1].err \in Range(RetOf(s).errs)
+                                                      \* (it replaces the attempts' errors, which are not reported next to it)
+                                                      /\ \A k \in 1..m(b) : AttErr(b, k) \notin Range(RetOf(s).errs)))),
+   \* a flow is a retryable node too: a failed pass over its nodes is repeated until one succeeds or the budget is used up
+   flowBudget |-> cfg.flowretry => \A j \in 1..Len(S) : (~Cancelled(S[j]) => RetriedPathHolds(cfg, S[j])),
    \* without a fallback the error of the last attempt is the run's error
    lastErrReturned |-> ForAllBlocks(LAMBDA s, i, b :
                         (b.fbs = <<>> /\ m(b) > 0 /\ m(b) = N(b) /\ AllFailed(b) /\ ~Fbk(b)) =>
@@ -364,7 +411,8 @@ C03_Clauses(cfg, S) ==
    \* nothing off the path has an event (every event sits in the block of a visited node)
    \* (flows that have a retry budget of their own repeat a failed pass: those runs are validated against the
    \* operational specification and through the Flow.Run comparison, not by this single-pass path equation)
-   path   |-> ~cfg.flowretry => \A j \in 1..Len(S) : PathHolds(cfg, S[j]),
+   path   |-> IF cfg.flowretry THEN \A j \in 1..Len(S) : (~Cancelled(S[j]) => RetriedPathHolds(cfg, S[j]))
+              ELSE \A j \in 1..Len(S) : PathHolds(cfg, S[j]),
    onPath |-> \A j \in 1..Len(S) :
                  /\ Orphans(S[j].cbs) = <<>>
                  /\ \A i \in 1..Len(S[j].blocks) :
@@ -458,7 +506,8 @@ C10_Clauses(cfg, S) ==
   LET Dummy == 0
   IN [
    \* inner flows run their own path to completion and present their last action
-   hpath     |-> ~cfg.flowretry => \A j \in 1..Len(S) : PathHolds(cfg, S[j]),
+   hpath     |-> IF cfg.flowretry THEN \A j \in 1..Len(S) : (~Cancelled(S[j]) => RetriedPathHolds(cfg, S[j]))
+                 ELSE \A j \in 1..Len(S) : PathHolds(cfg, S[j]),
    \* ... which is what the equivalent flattened state machine does
    flattened |-> ~cfg.flowretry => \A j \in 1..Len(S) : FlatAgrees(cfg, S[j]),
    \* ... and under the context of the whole run: no context handed to a node dies before the run ends
